@@ -122,6 +122,11 @@ def _rt_sources(t):
         t.repo(CORE + "acquire-device-hal/device/hal/" + f, E)
     for f in ["storage.c", "components.c", "device.c"]:
         t.repo(CORE + "acquire-device-properties/device/props/" + f, E)
+    # the shipped simulated cameras, used behind a recording proxy device of the mock driver (vreal0/1)
+    t.repo(DRV + "simcams/simulated.camera.c", E)
+    t.repo(DRV + "simcams/imfill.pattern.cpp")
+    t.repo(DRV + "simcams/popcount.cpp")
+    t.repo(DRV + "simcams/3rdParty/pcg-c-basic-0.9/pcg_basic.c")
     t.repo(CORE + "acquire-core-platform/linux/platform.c", PLATFORM_RENAMES)
     t.repo(CORE + "acquire-core-logger/logger.c")
 
